@@ -19,6 +19,8 @@ structure St where
   kind : String := ""
   ref : List (String × List String) := []   -- run 0: height ↦ result words
   reported : List String := []               -- repeat ids already reported in this history
+  leavers : List String := []                -- public keys of the validators that leave the staked set together
+  valReported : Bool := false
 
 def isHex (c : Char) : Bool := c.isDigit || ('a' ≤ c && c ≤ 'f') || ('A' ≤ c && c ≤ 'F')
 
@@ -45,7 +47,26 @@ def sigOfKind (kind : String) : String :=
   else if kind = "unstakequeue" then "unstake-queue-order-apphash"
   else "generic-nondeterminism"
 
-def step (st : St) (pre post : List String) : St × Verdict :=
+/-- Order-independent spec on a single run (`UpdateTendermintValidators`): the EndBlock validator updates
+of a block name every validator at most once, and when validators leave the staked set together each
+of them is there exactly once with power 0. -/
+def valsetVerdict (st : St) (pre post : List String) : Option (St × Verdict) :=
+  match pre, post with
+  | ["run", rep, "blk", h, _, _], [_, _, _, vu, _, _] =>
+    if st.valReported || vu = "-" then none else
+    let ups := (vu.splitOn ",").map fun e => match e.splitOn ":" with
+      | [k, p] => (k, p)
+      | _ => (e, "?")
+    let keys := ups.map (·.1)
+    let dup := keys.filter fun k => (keys.filter (· = k)).length > 1
+    let leaving := st.leavers.filter fun k => ups.any (fun u => u.1 = k && u.2 = "0")
+    let missing := if leaving.isEmpty then [] else st.leavers.filter fun k => !(ups.any (fun u => u.1 = k && u.2 = "0"))
+    if dup.isEmpty && missing.isEmpty then none
+    else some ({ st with valReported := true }, .propfail "valset-update-duplicate-or-missing"
+      s!"block {h} run {rep}: validator updates {vu}: duplicated {dup.eraseDups.map (·.take 8)}, leaving validators without their power-0 update {missing.map (·.take 8)}")
+  | _, _ => none
+
+def stepCore (st : St) (pre post : List String) : St × Verdict :=
   match pre with
   | ["norm", ds] =>
     match parseDels ds with
@@ -72,7 +93,11 @@ def step (st : St) (pre post : List String) : St × Verdict :=
       if !conserve then (st, .propfail "split-not-conserving" s!"rewards={r} primary={primary} delegators={ds} impl={post}")
       else (st, if [m] = post then .ok else .diff s!"split: model {m} impl {post}")
     | _, _ => (st, .bad "split args")
-  | "hist" :: _ :: kind :: _ => ({ st with kind := kind, ref := [], reported := [] }, .ok)
+  | "hist" :: _ :: kind :: rest =>
+    let lv := match rest.find? (·.startsWith "leavers=") with
+      | some w => let v := (w.drop 8).toString; if v = "-" then [] else v.splitOn ","
+      | none => []
+    ({ st with kind := kind, ref := [], reported := [], leavers := lv, valReported := false }, .ok)
   | ["crash", _, rep] => (st, .propfail (sigOfKind st.kind) s!"run {rep} crashed or hung: {" ".intercalate (post.take 30)}")
   | ["run", rep, "blk", h, kinds, wall] =>
     if post.length ≠ 6 then (st, .bad "blk arity") else
@@ -93,5 +118,10 @@ def step (st : St) (pre post : List String) : St × Verdict :=
       | some _ => (st, .bad "reference")
   | ["end", _] => (st, .ok)
   | _ => (st, .bad "op")
+
+def step (st : St) (pre post : List String) : St × Verdict :=
+  match valsetVerdict st pre post with
+  | some (st', v) => ((stepCore st' pre post).1, v)   -- keep the run bookkeeping, report the single-run violation first
+  | none => stepCore st pre post
 
 def main : IO Unit := Proto.run ({} : St) step
